@@ -193,6 +193,16 @@ CHECKS["C19"] = (
     "DESIGN.md section 3, C19",
 )
 
+CHECKS["C20"] = (
+    "bounded-exhaustive enumeration of (package tree x options) through the real command in forked children; file-system snapshot + audit-hook oracle",
+    "Package trees of depth 1-3 (complete/partial __all__) on sys.path x 8 emit kinds x SQLAlchemy submodule x recursive x 4 filter settings x "
+    "dry-run x pre-existing output directory: a dry run must leave a recursive (type, size, mtime, sha256) snapshot of the whole scratch root "
+    "identical and cause no write/mkdir/remove audit event; a real run may create paths only under the output directory, every generated "
+    "file must be valid Python whose __all__ names are bound there, the source package must be untouched and filtered modules absent.",
+    "bytecode caching is switched off (configuration, not exmod's action); packages are found through sys.path instead of pip install",
+    "DESIGN.md section 3, C20",
+)
+
 PENDING_REASON = "check not built yet in this revision (planned, see DESIGN.md section 3); no claim is made"
 
 
